@@ -19,6 +19,7 @@ SPAWNS = {
     'OD': r'^checker::on_demand::OnDemandChecker::<M>::spawn$',
     'SIM': r'^checker::simulation::SimulationChecker::<M>::spawn$',
 }
+MODS = {'BFS': 'checker::bfs::', 'DFS': 'checker::dfs::', 'OD': 'checker::on_demand::', 'SIM': 'checker::simulation::'}
 EXHAUSTIVE = ('BFS', 'DFS', 'OD')
 
 
@@ -37,7 +38,9 @@ class CB:
     def __init__(self, F, strat):
         self.F = F
         self.strat = strat
-        self.b = F.one_body(STRATS[strat], '%s check_block' % strat)
+        self.b = F.resolve(STRATS[strat],
+                           lambda b: bool(b.calls_to('Model::actions')) and bool(b.calls_to('Model::within_boundary')),
+                           '%s check_block' % strat, scope=MODS[strat])
         b = self.b
         self.sim = strat == 'SIM'
         ty = lambda i: b.locals[i]['ty']
@@ -270,19 +273,22 @@ class Spawn:
     def __init__(self, F, strat):
         self.F = F
         self.strat = strat
-        self.b = F.one_body(SPAWNS[strat], '%s spawn' % strat)
-        cb = F.one_body(STRATS[strat])
+        self.b = F.resolve(SPAWNS[strat],
+                           lambda b: bool(b.calls_to('Builder::spawn', 'thread::spawn')) and
+                           bool(b.calls_to('Model::init_states', 'Model::properties')),
+                           '%s spawn' % strat, scope=MODS[strat])
+        cb = F.resolve(STRATS[strat],
+                       lambda b: bool(b.calls_to('Model::actions')) and bool(b.calls_to('Model::within_boundary')),
+                       '%s check_block' % strat, scope=MODS[strat])
         workers = []
         for cl in F.closures_under(self.b):
-            if any(c.callee == cb.path or c.short.endswith(cb.path.split('::')[-1]) and 'check' in c.short
-                   for c in cl.calls):
+            if any(c.callee == cb.path for c in cl.calls):
                 workers.append(cl)
         if len(workers) != 1:
             raise AnchorMissing('%s: worker closure calling check_block not unique (%d)' %
                                 (self.b.path, len(workers)))
         self.worker = workers[0]
-        self.check_call = [c for c in self.worker.calls
-                           if c.short.endswith('check_block') or c.short.endswith('check_trace_from_initial')]
+        self.check_call = [c for c in self.worker.calls if c.callee == cb.path]
         if len(self.check_call) != 1:
             raise AnchorMissing('%s: check_block call in worker' % self.worker.path)
         self.check_call = self.check_call[0]
